@@ -41,8 +41,10 @@ ASSUMPTIONS = [
     'rotated rectangles are part of "rectangular regions" (RectangularROI carries theta)',
 ]
 
-CATS_X = [['a'], ['b', 'a'], ['c', 'a', 'bb'], ['d', 'a', 'c', 'bb']]
-CATS_Y = [['y'], ['y', 'xx'], ['w', 'y', 'xx'], ['w', 'y', 'v', 'xx']]
+# labels of unequal length in which one label EXTENDS another ('a' / 'ab', 'y' / 'yx'): comparing labels after a
+# cast to a narrower string width would confuse them
+CATS_X = [['a'], ['ab', 'a'], ['c', 'a', 'ab'], ['d', 'a', 'c', 'ab']]
+CATS_Y = [['y'], ['y', 'yx'], ['w', 'y', 'yx'], ['w', 'y', 'v', 'yx']]
 FRAC_PALETTES = [[0.0, 0.4], [0.1, 0.6], [0.0, 0.9]]     # numeric values relative to the category positions; all >= 0.1 away from the region edges
 
 
